@@ -30,6 +30,10 @@ SumSeq(s) == IF s = <<>> THEN 0 ELSE Head(s) + SumSeq(Tail(s))
 SeqMax(s) == CHOOSE m \in {s[i] : i \in DOMAIN s} : \A i \in DOMAIN s : s[i] <= m
 SeqMin(s) == CHOOSE m \in {s[i] : i \in DOMAIN s} : \A i \in DOMAIN s : m <= s[i]
 
+\* first index in 1..n failing Ok, 0 if none.  TLC evaluates CHOOSE over an interval in
+\* ascending order, so this is the first failure
+FirstBad(n, Ok(_)) == IF \A i \in 1..n : Ok(i) THEN 0 ELSE CHOOSE i \in 1..n : ~Ok(i)
+
 (***************************************************************************)
 (* floor(v*m / d) and (v*m) mod d for 0 <= v,m <= 65535, 1 <= d <= 65535   *)
 (* without leaving 31 bits: long division on the two bytes of v.           *)
